@@ -24,7 +24,20 @@ def main() -> None:
             cmd += ['-n', jobs]
         env = dict(os.environ)
         env.pop('INVESTMENTSYSTEMS_STATIC_FRAME_VERIF', None)
-        r = subprocess.run(cmd, cwd='/repo', env=env, stdout=subprocess.PIPE, stderr=subprocess.STDOUT, text=True)
+        # the hypothesis example database under /repo/.hypothesis is git-ignored state: keep it as found,
+        # otherwise a failing random example discovered here would be replayed by every later run
+        import shutil
+        hyp = '/repo/.hypothesis'
+        bak = os.path.join(d, 'hypothesis.bak')
+        had = os.path.isdir(hyp)
+        if had:
+            shutil.copytree(hyp, bak)
+        try:
+            r = subprocess.run(cmd, cwd='/repo', env=env, stdout=subprocess.PIPE, stderr=subprocess.STDOUT, text=True)
+        finally:
+            shutil.rmtree(hyp, ignore_errors=True)
+            if had:
+                shutil.copytree(bak, hyp)
         tail = r.stdout.strip().splitlines()[-1:]
         passed = set()
         for tc in ET.parse(xml).getroot().iter('testcase'):
